@@ -94,4 +94,16 @@ CHECKS = {
              "(listed with their reading site in vf/props/c14.py); .json/.log are excluded from the comparison; sibling "
              "pieces are delimited by the 'Function:' headers written under debug: True.",
     ),
+    "C07": dict(
+        level="exploration",
+        technique="property-based testing over invocation histories and environments: Hypothesis-drawn sequences run in "
+                  "one process vs fresh-process references, hash-seed/cwd/environment pairs, byte comparison",
+        design_ref="DESIGN.md section 4, C07",
+        text="(a) real command-line runs differing in PYTHONHASHSEED, cwd and environment, (b) a pre-populated output "
+             "directory, (c) Hypothesis-drawn histories of 2-6 invocations (corpus and generated libraries, C and C++, "
+             "main_with_args and create_wrapper) executed in a single process, every step compared byte for byte with "
+             "its fresh-process reference, (d) the same with Python's time/host/user/pid sources patched to differ.",
+        note="Complete output directories are compared, including .json and .log. Wall-clock independence is checked by "
+             "patching the sources, not by waiting.",
+    ),
 }
